@@ -307,15 +307,6 @@ theorem uriStep_d7 (root : NodeId) (s : RState) (id base : NodeId) (n : Node) (b
 
 /-! ### `uris` of the document -/
 
-/-- every registered URI names a resource root of the document -/
-def UrisOk (D : Doc) (s : RState) : Prop :=
-  ∀ d, s.doc? D.root = some d → ∀ e ∈ d.uris, D.ResourceRoot e.2 e.2
-
-theorem UrisOk.of_docs_eq {D : Doc} {a b : RState} (h : b.docs = a.docs) (ha : UrisOk D a) : UrisOk D b := by
-  intro d hd
-  have : a.doc? D.root = some d := by unfold RState.doc? at hd ⊢; rw [← h]; exact hd
-  exact ha d this
-
 theorem setAnchor_docs (s : RState) (b t : NodeId) (a : String) (dyn : Bool) :
     (setAnchor s b t a dyn).docs = s.docs := by
   rw [setAnchor_eq]; split
@@ -341,26 +332,6 @@ theorem newUriState_sound (D : Doc) (root : NodeId) (s : RState) (id : NodeId) (
 theorem newUriState_keeps (root : NodeId) (s : RState) (id : NodeId) (u : Url) :
     Keeps s (newUriState root s id u) :=
   (updInfo_keeps s id _ (by intro i t ht; exact ⟨t, ht⟩)).trans (Keeps.of_infos_eq (newUriState_infos root s id u))
-
-theorem newUriState_urisOk (D : Doc) (s : RState) (id : NodeId) (u : Url)
-    (hr : D.ResourceRoot id id) (h : UrisOk D s) : UrisOk D (newUriState D.root s id u) := by
-  unfold newUriState
-  simp only
-  split
-  · rename_i d hd
-    intro d' hd' e he
-    rw [doc?_setDoc] at hd'
-    have hroot : d.root = D.root := doc?_root _ _ _ hd
-    simp only [hroot, if_true, Option.some.injEq] at hd'
-    subst hd'
-    simp only at he
-    rcases List.mem_append.mp he with h1 | h1
-    · have hd0 : s.doc? D.root = some d := by
-        unfold RState.doc? at hd ⊢; rw [← updInfo_docs s id fun i => { i with uri := some u }]; exact hd
-      exact h d hd0 e (List.mem_filter.mp h1).1
-    · simp only [List.mem_singleton] at h1
-      subst h1; exact hr
-  · exact UrisOk.of_docs_eq (updInfo_docs _ _ _) h
 
 /-! ### `info.base = base` and the anchors of one schema -/
 
@@ -410,13 +381,12 @@ theorem post2020 (D : Doc) (hdr : D.draft = .d2020) (s1 : RState) (id base1 : No
     (hb : (lookupNat base1 s1.infos).isSome = true) (hr : D.ResourceRoot id base1) :
     Done D (postStep .d2020 s1 id base1 n).infos id ∧
     (∀ p, p ≠ id → Done D s1.infos p → Done D (postStep .d2020 s1 id base1 n).infos p) ∧
-    (Sound D s1.infos → Sound D (postStep .d2020 s1 id base1 n).infos) ∧
-    (UrisOk D s1 → UrisOk D (postStep .d2020 s1 id base1 n)) := by
+    (Sound D s1.infos → Sound D (postStep .d2020 s1 id base1 n).infos) := by
   have hpost : postStep .d2020 s1 id base1 n =
       setAnchor (setAnchor (s1.updInfo id fun i => { i with base := some base1 }) base1 id n.anchor false)
         base1 id n.dynamicAnchor true := rfl
   rw [hpost]
-  refine ⟨?_, ?_, ?_, ?_⟩
+  refine ⟨?_, ?_, ?_⟩
   · obtain ⟨i, hi, hbase⟩ := hasBase_setAnchor _ base1 id n.dynamicAnchor true id base1
       (hasBase_setAnchor _ base1 id n.anchor false id base1 (hasBase_set s1 id base1 hid))
     refine ⟨i, base1, hi, hbase, hr, ?_⟩
@@ -440,8 +410,6 @@ theorem post2020 (D : Doc) (hdr : D.draft = .d2020) (s1 : RState) (id base1 : No
     apply sound_setAnchor D _ _ _ _ _ hr (declares_dynamicAnchor D id n hn hdr)
     apply sound_setAnchor D _ _ _ _ _ hr (declares_anchor D id n hn hdr)
     exact sound_updInfo D s1 id _ (fun _ _ he => Or.inl he) h
-  · intro h
-    exact UrisOk.of_docs_eq ((setAnchor_docs _ _ _ _ _).trans ((setAnchor_docs _ _ _ _ _).trans (updInfo_docs _ _ _))) h
 
 /-- draft-07: after `info.base = base` -/
 theorem post7 (D : Doc) (hdr : D.draft = .d7) (s1 : RState) (id base1 : NodeId) (n : Node)
@@ -451,11 +419,10 @@ theorem post7 (D : Doc) (hdr : D.draft = .d7) (s1 : RState) (id base1 : NodeId) 
       ∃ ri, lookupNat base1 s1.infos = some ri ∧ (Json.lookup e.1 ri.anchors).isSome = true) :
     Done D (postStep .d7 s1 id base1 n).infos id ∧
     (∀ p, p ≠ id → Done D s1.infos p → Done D (postStep .d7 s1 id base1 n).infos p) ∧
-    (Sound D s1.infos → Sound D (postStep .d7 s1 id base1 n).infos) ∧
-    (UrisOk D s1 → UrisOk D (postStep .d7 s1 id base1 n)) := by
+    (Sound D s1.infos → Sound D (postStep .d7 s1 id base1 n).infos) := by
   have hpost : postStep .d7 s1 id base1 n = s1.updInfo id fun i => { i with base := some base1 } := rfl
   rw [hpost]
-  refine ⟨?_, ?_, ?_, ?_⟩
+  refine ⟨?_, ?_, ?_⟩
   · obtain ⟨i, hi, hbase⟩ := hasBase_set s1 id base1 hid
     refine ⟨i, base1, hi, hbase, hr, ?_⟩
     intro n' hn' e he
@@ -472,8 +439,6 @@ theorem post7 (D : Doc) (hdr : D.draft = .d7) (s1 : RState) (id base1 : NodeId) 
     exact done_updInfo D s1 id _ p (fun e => absurd e.symm hp) (fun _ _ hx => hx) h
   · intro h
     exact sound_updInfo D s1 id _ (fun _ _ he => Or.inl he) h
-  · intro h
-    exact UrisOk.of_docs_eq (updInfo_docs _ _ _) h
 
 /-! ### one schema of resolveURIs -/
 
@@ -506,8 +471,7 @@ theorem nodeStep_spec (D : Doc) (s : RState) (id base : NodeId) (n : Node) (bi :
     base1 = (if startsResource D.draft n = true then id else base) ∧
     Done D (postStep D.draft s1 id base1 n).infos id ∧
     (∀ p, p ≠ id → Done D s.infos p → Done D (postStep D.draft s1 id base1 n).infos p) ∧
-    (Sound D s.infos → Sound D (postStep D.draft s1 id base1 n).infos) ∧
-    (UrisOk D s → UrisOk D (postStep D.draft s1 id base1 n)) := by
+    (Sound D s.infos → Sound D (postStep D.draft s1 id base1 n).infos) := by
   cases hdr : D.draft with
   | d2020 =>
     rw [hdr] at hstep hr
@@ -520,9 +484,9 @@ theorem nodeStep_spec (D : Doc) (s : RState) (id base : NodeId) (n : Node) (bi :
       rw [hs] at hr ⊢
       simp only [if_true] at hr ⊢
       have hk := newUriState_keeps D.root s base1 (Uri.resolveReference bu idURI)
-      obtain ⟨a, b, c, d⟩ := post2020 D hdr _ base1 base1 n hn (hk.1 _ hid) (hk.1 _ hid) hr
+      obtain ⟨a, b, c⟩ := post2020 D hdr _ base1 base1 n hn (hk.1 _ hid) (hk.1 _ hid) hr
       exact ⟨trivial, a, fun p hp h => b p hp (newUriState_done D _ _ _ _ p h),
-        fun h => c (newUriState_sound D _ _ _ _ h), fun h => d (newUriState_urisOk D _ _ _ hr h)⟩
+        fun h => c (newUriState_sound D _ _ _ _ h)⟩
   | d7 =>
     rw [hdr] at hstep hr
     rcases uriStep_d7 _ _ _ _ _ _ _ _ hstep with ⟨h0, rfl, rfl⟩ | ⟨h1, h2, h3, rfl, rfl⟩ |
@@ -538,13 +502,12 @@ theorem nodeStep_spec (D : Doc) (s : RState) (id base : NodeId) (n : Node) (bi :
       rw [hs] at hr ⊢
       simp only [Bool.false_eq_true, if_false] at hr ⊢
       have hk := setAnchor_keeps s base1 id (dropHash n.id) false
-      obtain ⟨a, b, c, d⟩ := post7 D hdr _ id base1 n hn (hk.1 _ hid) hr (by
+      obtain ⟨a, b, c⟩ := post7 D hdr _ id base1 n hn (hk.1 _ hid) hr (by
         intro e he
         obtain ⟨he, hne⟩ := mem_declared_d7 n e he
         subst he
         exact setAnchor_registered s base1 id (dropHash n.id) false hb hne)
-      refine ⟨trivial, a, fun p hp h => b p hp (done_setAnchor D _ _ _ _ _ p h), fun h => c ?_,
-        fun h => d (UrisOk.of_docs_eq (setAnchor_docs _ _ _ _ _) h)⟩
+      refine ⟨trivial, a, fun p hp h => b p hp (done_setAnchor D _ _ _ _ _ p h), fun h => c ?_⟩
       apply sound_setAnchor D s base1 id _ false hr _ h
       intro hne
       exact ⟨n, hn, by rw [hdr]; exact declared_d7_mem n h1 h2 h3 hne⟩
@@ -553,10 +516,10 @@ theorem nodeStep_spec (D : Doc) (s : RState) (id base : NodeId) (n : Node) (bi :
       simp only [if_true] at hr ⊢
       have hk := newUriState_keeps D.root s base1 (Uri.resolveReference bu idURI)
       have hnil : declaredAnchors .d7 n = [] := declared_d7_nil n (Or.inr (Or.inr h3))
-      obtain ⟨a, b, c, d⟩ := post7 D hdr _ base1 base1 n hn (hk.1 _ hid) hr
+      obtain ⟨a, b, c⟩ := post7 D hdr _ base1 base1 n hn (hk.1 _ hid) hr
         (by rw [hnil]; intro e he; simp at he)
       exact ⟨trivial, a, fun p hp h => b p hp (newUriState_done D _ _ _ _ p h),
-        fun h => c (newUriState_sound D _ _ _ _ h), fun h => d (newUriState_urisOk D _ _ _ hr h)⟩
+        fun h => c (newUriState_sound D _ _ _ _ h)⟩
 
 theorem doc?_of_docs_eq {a b : RState} (h : b.docs = a.docs) (r : NodeId) : b.doc? r = a.doc? r := by
   unfold RState.doc?; rw [h]
@@ -870,7 +833,7 @@ theorem resolveURIsLoop_desig (env : Env) (D : Doc) (hst : D.st = env.st) (ret :
       obtain ⟨hw0, hU0⟩ := hwork (id, base) (by simp)
       have hr := workOk_resourceRoot D id base n hw0 hn
       have hidS : (lookupNat id s.infos).isSome = true := by rw [hi]; rfl
-      obtain ⟨hb1, dId, dOther, hsound, _⟩ :=
+      obtain ⟨hb1, dId, dOther, hsound⟩ :=
         nodeStep_spec D s id base n bi s1 base1 hn hidS (by rw [hb]; rfl) hstep hr
       obtain ⟨uKeep, uNew, bKeep, bNew, hurisId⟩ :=
         nodeStep_uri D ret s id base n bi s1 base1 hidS hstep
@@ -959,7 +922,7 @@ theorem resolveURIs_desig (env : Env) (D : Doc) (hst : D.st = env.st) (ret : Url
     have hidS : (lookupNat D.root s.infos).isSome = true := by rw [hi]; rfl
     have hsR : startsResourceAt D.st D.draft D.root = startsResource D.draft n := by
       unfold startsResourceAt; rw [hn]
-    obtain ⟨hb1, dId, _, hsound, _⟩ :=
+    obtain ⟨hb1, dId, _, hsound⟩ :=
       nodeStep_spec D s D.root D.root n bi s1 base1 hn hidS hidS hstep (by split <;> exact resourceRoot_root D)
     have hb1' : base1 = D.root := by rw [hb1]; split <;> rfl
     obtain ⟨uKeep, uNew, _, bNew, hurisId⟩ :=
